@@ -635,3 +635,83 @@ Theorem C14_judge_pplugh_sound : forall prev prev' gfreq feeinfo tfreq tokeninfo
   o = pplugh_model (prev', (gfreq, feeinfo, tfreq, tokeninfo, feedchain, F, dest, roles, known, aos)).
 Proof. exact pplugh_sound. Qed.
 Print Assumptions C14_judge_pplugh_sound.
+
+(* ---- the order clause "prices are listed in key order" on the implementation's own lists, sink by sink ----
+   Every executable property above tests `strictly_asc (map fst _)` on each price list of the output, so the clause holds
+   for ANY output that passes, with NO premise on the input (the value clauses need cf_input_wf / tp_input_wf).
+   Key order = N.lt on the model keys: chain selectors for gas prices (Go: ChainSel <, uint64), token ids for token prices
+   (Go: TokenID <, string order; the harness's fixed-width hex ids make it the numeric order - spec 'trusted').
+   For the model's own output the clause is part of C14_selection_gas / C14_selection_token (keys_strict out). *)
+Require Import Verif.Proofs.JudgeSoundC14OrderP.
+From Coq Require Import Sorting.Sorted.
+
+(* sorted by key: earlier entry, strictly smaller key (hence no key twice) *)
+Theorem C14_order_meaning : forall l : prices,
+  StronglySorted (fun a b : N * Z => (fst a < fst b)%N) l ->
+  NoDup (map fst l) /\
+  forall i j a b, (i < j)%nat -> nth_error l i = Some a -> nth_error l j = Some b -> (fst a < fst b)%N.
+Proof. exact (fun l H => conj (by_key_nodup l H) (by_key_positions l H)). Qed.
+Print Assumptions C14_order_meaning.
+
+Theorem C14_judge_cf_sound_order : forall freq feeinfo F dest roles known aos o out,
+  cf_ok (freq, feeinfo, F, dest, roles, known, aos) o = true -> snd o = Ok out ->
+  StronglySorted (fun a b : N * Z => (fst a < fst b)%N) out.
+Proof. exact cf_sound_order. Qed.
+Print Assumptions C14_judge_cf_sound_order.
+
+Theorem C14_judge_tp_sound_order : forall freq tokeninfo feedchain F dest roles known aos o out,
+  tp_ok (freq, tokeninfo, feedchain, F, dest, roles, known, aos) o = true -> snd o = Ok out ->
+  StronglySorted (fun a b : N * Z => (fst a < fst b)%N) out.
+Proof. exact tp_sound_order. Qed.
+Print Assumptions C14_judge_tp_sound_order.
+
+(* plugin: an output that passes is Ok (gas, tok, (report gas, report tok)) with report lists = outcome lists, both sorted *)
+Theorem C14_judge_pplug_sound_order : forall gfreq feeinfo tfreq tokeninfo feedchain F dest roles known aos o,
+  pplug_ok (gfreq, feeinfo, tfreq, tokeninfo, feedchain, F, dest, roles, known, aos) o = true ->
+  exists gas tok, snd o = Ok (gas, tok, (gas, tok)) /\
+    StronglySorted (fun a b : N * Z => (fst a < fst b)%N) gas /\
+    StronglySorted (fun a b : N * Z => (fst a < fst b)%N) tok.
+Proof. exact pplug_sound_order. Qed.
+Print Assumptions C14_judge_pplug_sound_order.
+
+Theorem C14_judge_pplugh_sound_order : forall prev gfreq feeinfo tfreq tokeninfo feedchain F dest roles known aos o,
+  pplugh_ok (prev, (gfreq, feeinfo, tfreq, tokeninfo, feedchain, F, dest, roles, known, aos)) o = true ->
+  exists gas tok, snd o = Ok (gas, tok, (gas, tok)) /\
+    StronglySorted (fun a b : N * Z => (fst a < fst b)%N) gas /\
+    StronglySorted (fun a b : N * Z => (fst a < fst b)%N) tok.
+Proof. exact pplugh_sound_order. Qed.
+Print Assumptions C14_judge_pplugh_sound_order.
+
+(* history rounds: the prices carried to the next round and the Outcome result *)
+Theorem C14_judge_cfh_sound_order : forall prev freq feeinfo F dest roles known aos vs r car,
+  cfh_ok (prev, (freq, feeinfo, F, dest, roles, known, aos)) (vs, r, car) = true ->
+  StronglySorted (fun a b : N * Z => (fst a < fst b)%N) car /\
+  forall out, r = Ok out -> StronglySorted (fun a b : N * Z => (fst a < fst b)%N) out.
+Proof. exact cfh_sound_order. Qed.
+Print Assumptions C14_judge_cfh_sound_order.
+
+Theorem C14_judge_tph_sound_order : forall prev freq tokeninfo feedchain F dest roles known aos vs r car,
+  tph_ok (prev, (freq, tokeninfo, feedchain, F, dest, roles, known, aos)) (vs, r, car) = true ->
+  StronglySorted (fun a b : N * Z => (fst a < fst b)%N) car /\
+  forall out, r = Ok out -> StronglySorted (fun a b : N * Z => (fst a < fst b)%N) out.
+Proof. exact tph_sound_order. Qed.
+Print Assumptions C14_judge_tph_sound_order.
+
+(* hypotheses satisfiable with two keys per list (the observations list the larger key first); the same prices in the
+   other order are rejected by every sink, in the report lists as well as in the outcome / carried lists *)
+Theorem C14_judge_order_examples :
+  (cf_ok ord_cf_in (ord_vs, Ok [ord_g5; ord_g6]) = true /\ cf_ok ord_cf_in (ord_vs, Ok [ord_g6; ord_g5]) = false) /\
+  (tp_ok ord_tp_in (ord_vs, Ok [(17%N, 1003%Z); (18%N, 79%Z)]) = true /\
+   tp_ok ord_tp_in (ord_vs, Ok [(18%N, 79%Z); (17%N, 1003%Z)]) = false) /\
+  (let g := [ord_g5; ord_g6] in let t := [(17%N, 1003%Z); (18%N, 79%Z)] in
+   pplug_ok ord_pplug_in (ord_vs, pp_out g t g t) = true /\
+   pplug_ok ord_pplug_in (ord_vs, pp_out g t (rev g) t) = false /\
+   pplug_ok ord_pplug_in (ord_vs, pp_out g t g (rev t)) = false /\
+   pplug_ok ord_pplug_in (ord_vs, pp_out (rev g) (rev t) (rev g) (rev t)) = false /\
+   pplugh_ok ([(7%N, 1%Z)], [(99%N, 5%Z)], ord_pplug_in) (ord_vs, pp_out g t g t) = true) /\
+  (cfh_ok ([(7%N, 1%Z)], ord_cf_in) (hist_o ord_vs (Ok [ord_g5; ord_g6]) [ord_g5; ord_g6]) = true /\
+   cfh_ok ([(7%N, 1%Z)], ord_cf_in) (hist_o ord_vs (Ok [ord_g5; ord_g6]) [ord_g6; ord_g5]) = false) /\
+  (tph_ok ([(99%N, 5%Z)], ord_tp_in) (hist_o ord_vs (Ok [(17%N, 1003%Z); (18%N, 79%Z)]) [(17%N, 1003%Z); (18%N, 79%Z)]) = true /\
+   tph_ok ([(99%N, 5%Z)], ord_tp_in) (hist_o ord_vs (Ok [(17%N, 1003%Z); (18%N, 79%Z)]) [(18%N, 79%Z); (17%N, 1003%Z)]) = false).
+Proof. exact (conj cf_order_ex (conj tp_order_ex (conj pplug_order_ex (conj cfh_order_ex tph_order_ex)))). Qed.
+Print Assumptions C14_judge_order_examples.
